@@ -83,6 +83,10 @@ type Mutator struct {
 	// NoContracts drops code/storage/suicide/create-account operations (C08 is about validators
 	// and delegator accounts; contract storage is C09/C10 matter).
 	NoContracts bool
+	// StakeRecWeight, NStakeKeys: staking-record focus (records are written often, to one or two
+	// keys, so that one record's transaction-hash list grows on both sides of a Copy).
+	StakeRecWeight int
+	NStakeKeys     int
 	// DelegationWeight, NDelegators: staking-focus mode (delegations drawn more often, from few
 	// delegators, so that one delegator's list sees add / remove / add sequences).
 	DelegationWeight int
@@ -200,6 +204,9 @@ func (m *Mutator) Gen(st *state.StateDB) *Op {
 	}
 	if m.AllowStakingRecords {
 		weights[17] = 3
+		if m.StakeRecWeight > 1 {
+			weights[17] *= m.StakeRecWeight
+		}
 	}
 	if m.StorageWeight > 1 {
 		weights[5] *= m.StorageWeight
@@ -731,9 +738,13 @@ func (m *Mutator) stakingRecord(st *state.StateDB) string {
 // genStakingRecord imitates the staking handlers (handler.go:94,194; delegation_handler.go:100,198).
 func (m *Mutator) genStakingRecord(st *state.StateDB) *Op {
 	c := m.r.C
-	v := valKeys[c.Intn("valkey", len(valKeys))].addr
+	nk, nd := len(valKeys), len(delegators)
+	if m.NStakeKeys > 0 {
+		nk, nd = min(nk, m.NStakeKeys), min(nd, m.NStakeKeys)
+	}
+	v := valKeys[c.Intn("valkey", nk)].addr
 	if c.Chance("delegation-record", 1, 2) {
-		d := delegators[c.Intn("delegator", len(delegators))]
+		d := delegators[c.Intn("delegator", nd)]
 		txh := common.BigToHash(big.NewInt(int64(c.Intn("txh", 1000) + 1)))
 		amt := amount(c)
 		return &Op{Name: "stakerec-d", Desc: fmt.Sprintf("AddStakingRecord d=%s v=%s tx=%s val=%s", nm(d), nm(v), nm(txh), amt),
